@@ -40,15 +40,22 @@ class Axis:
         # will be replaced by a ChopManager
         self.wires: WireManagerBase = WirePropagateManager(wires)
 
-        # will be added as blocks are added to mesh
-        self.neighbours: Set[Axis] = set()
+        # will be added as blocks are added to mesh;
+        # kept in insertion order so that propagation does not depend on object addresses
+        self.neighbour_list: List[Axis] = []
+
+    @property
+    def neighbours(self) -> Set["Axis"]:
+        """Axes of other blocks that share at least one wire with this one"""
+        return set(self.neighbour_list)
 
     def add_neighbour(self, axis: "Axis") -> None:
         """Adds an 'axis' from another block if it shares at least one wire"""
         for this_wire in self.wires:
             for nei_wire in axis.wires:
                 if this_wire.is_coincident(nei_wire):
-                    self.neighbours.add(axis)
+                    if axis not in self.neighbour_list:
+                        self.neighbour_list.append(axis)
 
     def is_aligned(self, other: "Axis") -> bool:
         """Returns True if wires of the other axis are aligned
@@ -81,7 +88,7 @@ class Axis:
             # no need to change anything
             return False
 
-        for neighbour in self.neighbours:
+        for neighbour in self.neighbour_list:
             # a neighbour that is defined by copied wires only has no chops to offer
             if neighbour.is_defined and len(neighbour.wires.chops) > 0:
                 if neighbour.is_aligned(self):
